@@ -110,6 +110,11 @@ def park (s : Sch) (o : PassOut) (i : Nat) (res : Res) : Sch × PassOut × Did :
   | .state (.error m) => (s, { o with results := o.results ++ [(i, .err m)] }, .resumed i (.state (.error m)))
   | _ => (s, { o with failed := true }, .failed)
 
+/-- cancel requests issued by the body during the slice (`Scheduler::try_cancel_coroutine` from
+inside a coroutine) are in the process-wide cancel set from then on -/
+def absorb (s : Sch) : Sch :=
+  { s with cancel := s.cancel ++ s.th.req.filter (fun j => decide (j < s.cos.length)), th := { s.th with req := [] } }
+
 /-- one iteration of the `do_schedule` loop: `check_ready`, pop, (cancel check), resume, re-park -/
 def iter (s0 : Sch) (o : PassOut) : Sch × PassOut × Did :=
   match (checkReady s0).ready.popMin with
@@ -121,8 +126,7 @@ def iter (s0 : Sch) (o : PassOut) : Sch × PassOut × Did :=
     match (checkReady s0).cos[i]? with
     | none => ({ checkReady s0 with ready := q' }, { o with failed := true }, .failed)
     | some c =>
-      park { checkReady s0 with ready := q', cos := (checkReady s0).cos.set i (resume (checkReady s0).th c 0).2.1,
-                                 th := (resume (checkReady s0).th c 0).1 }
+      park (absorb { checkReady s0 with ready := q', cos := (checkReady s0).cos.set i (resume (checkReady s0).th c 0).2.1, th := (resume (checkReady s0).th c 0).1 })
         (if (resume (checkReady s0).th c 0).2.1.got.length > c.got.length then { o with resumed := o.resumed ++ [i] } else o)
         i (resume (checkReady s0).th c 0).2.2
 
